@@ -15,6 +15,7 @@ func All() []core.Prop {
 		C14{},
 		C16{},
 		C17{},
+		C20{},
 	}
 }
 
